@@ -103,6 +103,10 @@ func (f *Field[T]) ModExp(base, exp, modulus *Element[T]) *Element[T] {
 	}
 	expBts := f.ToBits(exp)
 	n := len(expBts)
+	// reduce the base first. Otherwise, when only the lowest bit of the
+	// exponent is set, the returned value is the base itself, which may be
+	// larger than the modulus.
+	base = f.ModMul(base, f.One(), modulus)
 	res := f.Select(expBts[0], base, f.One())
 	base = f.ModMul(base, base, modulus)
 	for i := 1; i < n-1; i++ {
